@@ -138,8 +138,19 @@ def judge_against_spec(case, out, prog):
         vio.append({"what": "validity verdict", "got": out["flags"]["valid"], "want": sp.valid})
     # a stack that exists but is empty is not told apart from one that was never created (peek/pop/stack on an unknown name create
     # it as a by-product, also when an enclosing and()/or() would not need the value)
-    rv = {k: v for k, v in num_canon(real_vars(out["variables"])).items() if v != []}
-    sv = {k: v for k, v in num_canon(sp.vars).items() if v != []}
+    # … and reading `@v.key` of an unknown variable leaves `v: {key: None}` behind: an entry that holds None is not told apart
+    # from a missing one
+    def tidy(d):
+        out_ = {}
+        for k, v in d.items():
+            if isinstance(v, dict):
+                v = {kk: vv for kk, vv in v.items() if vv is not None}
+            if v != [] and v != {}:
+                out_[k] = v
+        return out_
+
+    rv = tidy(num_canon(real_vars(out["variables"])))
+    sv = tidy(num_canon(sp.vars))
     if rv != sv:
         vio.append({"what": "variables differ from the values the csvpath assigns", "got": rv, "want": sv})
     rp = [e[1] for e in out["printouts"]]
